@@ -61,6 +61,12 @@ def step (st : St) : List String → St × String
      | some f, some t, some x => run st id (fun p => sendStep p f t x)
      | _, _, _ => (st, "bad-op"))
   | ["appr", id, _, _, _] => run st id (fun p => (p, true))     -- ERC20 approve: no balance moves
+  | ["multi", id, x, _] =>
+    -- one transaction: the contract (address 4) transfers x tokens to user 2, then two Transfer logs of an
+    -- UNREGISTERED token name the module address: only the first has any effect on the pair
+    (match x.toNat? with
+     | some x => run st id (fun p => Haqq.Peg.step p (.transfer 4 2 x))
+     | none => (st, "bad-op"))
   | "mal" :: _ => (st, "skip")
   | _ => (st, "bad-op")
 
